@@ -1,8 +1,8 @@
 #!/bin/sh
-# usage: tools/keep_mutant.sh <id> [<name>]  -- copy a confirmed seeded change from its scratch worktree into /verif/seeded and drop the worktree
-id=$1; name=${2:-$1}; wt=/tmp/mut/$name
+# usage: tools/keep_mutant.sh <id> [<name> [<worktree>]]  -- copy a confirmed seeded change from its scratch worktree into
+# /verif/seeded/<name> and drop the worktree
+id=$1; name=${2:-$1}; wt=${3:-/tmp/mut/$name}
 d=/verif/seeded/$name; mkdir -p $d
 cp $wt/out/patch.diff $wt/out/meta.json $d/ || exit 1
 for f in demo.c run.sh demo.sh demo.py; do [ -f $wt/out/$f ] && cp $wt/out/$f $d/; done
-ls $wt/out | head -20
 git -C /repo worktree remove --force $wt && echo "worktree $wt removed"
